@@ -77,3 +77,32 @@ func VerifRuleScheduleActive(c Condition, t time.Time) (bool, error) {
 	}
 	return newSchedule(c.Start, c.End, weekdays, c.Dates).activeForTime(t)
 }
+
+// VerifRuleRunConfig starts the Run loop of a rule client configured with cfg
+// and hands it points for the rule node or one of its children exactly as the
+// client manager does through RuleClient.Points (channel newPoints), stops
+// the client and returns its configuration once Run has returned. The points
+// are therefore handled by the configuration-change path of Run itself:
+// data.MergePoints into the configuration, then run("", nil) (a trigger point
+// with time.Now() through ruleProcessPoints at the rule's own id, then
+// ruleRunActions / ruleInactiveActions for the resulting state).
+func VerifRuleRunConfig(nc *nats.Conn, cfg Rule, nodeID string, pts data.Points) (Rule, error) {
+	rc := NewRuleClient(nc, verifCopyRule(cfg)).(*RuleClient)
+	done := make(chan error, 1)
+	go func() {
+		defer func() {
+			if r := recover(); r != nil {
+				done <- fmt.Errorf("panic: %v", r)
+			}
+		}()
+		done <- rc.Run()
+	}()
+	select {
+	case rc.newPoints <- NewPoints{nodeID, "", pts}:
+	case err := <-done:
+		return rc.config, fmt.Errorf("Run returned before taking points: %v", err)
+	}
+	rc.Stop(nil)
+	err := <-done
+	return rc.config, err
+}
